@@ -468,6 +468,16 @@ func runColdStart(r *mon.Run, id string, n int, ops ...string) {
 			spec += " [" + strings.Join(ev, " ") + "]"
 			w.Class(id + ":cold:env-variant")
 		}
+		if i%5 == 3 {
+			// a process that sees ONE cpu (runtime.NumCPU() == 1: a container, a small VM): the
+			// scheduler affinity is inherited from a taskset wrapper
+			if ts, err := exec.LookPath("taskset"); err == nil {
+				cmd.Args = append([]string{ts, "-c", "0", exe}, cmd.Args[1:]...)
+				cmd.Path = ts
+				spec += " [one cpu]"
+				w.Class(id + ":cold:one-cpu")
+			}
+		}
 		if np := coldProcs[(i/len(ops))%len(coldProcs)]; np != 0 {
 			cmd.Env = append(cmd.Env, fmt.Sprintf("GOMAXPROCS=%d", np))
 			spec += fmt.Sprintf(" [GOMAXPROCS=%d]", np)
